@@ -429,6 +429,27 @@ func (wf *Workflow[I, O]) compile(ctx context.Context, options *graphCompileOpti
 		return nil, wf.g.buildError
 	}
 
+	if wf.g.compiled {
+		// whatever was declared after a successful Compile would change the compiled workflow
+		pending := len(wf.workflowBranches) > 0
+		for _, n := range wf.workflowNodes {
+			if len(n.addInputs) > 0 || len(n.staticValues) > 0 {
+				pending = true
+			}
+		}
+		if pending {
+			return nil, ErrGraphCompiled
+		}
+	}
+
+	// validate every branch before the first one is pushed into the graph: a failed Compile leaves nothing behind
+	for _, wb := range wf.workflowBranches {
+		for endNode := range wb.endNodes {
+			if _, ok := wf.workflowNodes[endNode]; !ok && endNode != END {
+				return nil, fmt.Errorf("branch end node '%s' needs to be added to workflow first", endNode)
+			}
+		}
+	}
 	for _, wb := range wf.workflowBranches {
 		for endNode := range wb.endNodes {
 			if endNode == END {
@@ -436,16 +457,14 @@ func (wf *Workflow[I, O]) compile(ctx context.Context, options *graphCompileOpti
 					wf.dependencies[END] = make(map[string]dependencyType)
 				}
 				wf.dependencies[END][wb.fromNodeKey] = branchDependency
-			} else {
-				n, ok := wf.workflowNodes[endNode]
-				if !ok {
-					return nil, fmt.Errorf("branch end node '%s' needs to be added to workflow first", endNode)
-				}
+			} else if n, ok := wf.workflowNodes[endNode]; ok {
 				n.dependencySetter(wb.fromNodeKey, branchDependency)
 			}
 		}
 		_ = wf.g.addBranch(wb.fromNodeKey, wb.GraphBranch, true)
 	}
+	// applied: a later Compile must not push them again
+	wf.workflowBranches = nil
 
 	for _, n := range wf.workflowNodes {
 		for _, addInput := range n.addInputs {
@@ -496,6 +515,8 @@ func (wf *Workflow[I, O]) compile(ctx context.Context, options *graphCompileOpti
 			} else {
 				wf.g.handlerPreNode[n.key] = append([]handlerPair{pair}, wf.g.handlerPreNode[n.key]...)
 			}
+			// applied: a later Compile must not register the paths and the handler again
+			n.staticValues = make(map[string]any)
 		}
 	}
 
